@@ -1,4 +1,4 @@
-import Amgcl.Proofs.BridgeLast
+import Amgcl.Proofs.BridgeAnyCoarse
 /-!
 # Bridge, part 8: a concrete hierarchy built by `Amg.build` — non-vacuity of the assembled statements
 
@@ -123,5 +123,36 @@ theorem levels_wdd : ∀ M ∈ [A4c, Bridge.Example.A2c, Bridge.Example.A1c],
   · show WeakDD (matOf A4c 4 4); rw [mat_A4c]; exact Energy.Example.wdd_A4
   · show WeakDD (matOf Bridge.Example.A2c 2 2); rw [Bridge.Example.mat_A2c]; exact Energy.Example.wdd_A2
   · show WeakDD (matOf Bridge.Example.A1c 1 1); rw [Bridge.Example.mat_A1c]; exact Energy.Example.wdd_A1
+
+/-! ### the same input with `over_interp = 3/2` (rescaled Galerkin operator, `s = 2/3`) -/
+
+/-- `coarsening::aggregation` with `over_interp = 3/2` -/
+def polS : Policy ℚ := aggregationPolicy (fun x => x) aprm 1 (2 / 3)
+
+theorem policyShapeS : PolicyShape polS := policyShape_aggregation _ aprm rfl (by decide) 1 (2 / 3)
+
+/-- Boolean form of `AdmDiag` -/
+def admDiagB (M : CRS ℚ) : Bool := diagOnceb M && (List.range M.nrows).all (fun i => decide (M.get i i ≠ 0))
+
+theorem admDiag_of_b (M : CRS ℚ) (h : admDiagB M = true) : AdmDiag M := by
+  simp only [admDiagB, Bool.and_eq_true, List.all_eq_true, List.mem_range, decide_eq_true_eq] at h
+  exact ⟨h.1, h.2⟩
+
+/-- Boolean form of the hypothesis `hadm` of `built_realizes` for Gauss–Seidel / Jacobi -/
+def levelsAdmB {S : Type} (ls : List (Level ℚ S)) : Bool :=
+  ls.all (fun lv => lv.solve.isSome || match lv.A with | some M => admDiagB M | none => true)
+
+theorem hadm_of_b {S : Type} (ls : List (Level ℚ S)) (h : levelsAdmB ls = true) :
+    ∀ lv ∈ ls, lv.solve = none → ∀ M, lv.A = some M → AdmDiag M := by
+  intro lv hlv hs M hM
+  simp only [levelsAdmB, List.all_eq_true] at h
+  have := h lv hlv
+  rw [hs, hM] at this
+  exact admDiag_of_b M (by simpa using this)
+
+/-- the constructor succeeds, three levels, all smoothed level matrices admissible (kernel evaluation) -/
+theorem buildS_ok : (match build prm polS smGS.model directOk A4c with
+    | .ok ls => ls.length == 3 && levelsAdmB ls
+    | .error _ => false) = true := by decide +kernel
 
 end Amgcl.Energy.Bridge.Ex
